@@ -105,6 +105,12 @@ def run(rep: Report, tier: str, seed: int) -> None:
         "private-class-used-as-type-elsewhere": ({"sx4/__init__.py": "", "sx4/_engine.py": "class Gearbox:\n    def gsecret(self) -> int:\n        return 1\n\n\nclass _Motor:\n    def msecret(self) -> int:\n        return 1\n",
                                                   "sx4/car.py": "from ._engine import Gearbox, _Motor\n\n\nclass Car:\n    g: Gearbox\n\n    def start(self, m: _Motor) -> Gearbox:\n        return self.g\n\n\nclass Truck(Gearbox):\n    pass\n"},
                                                  ["Gearbox", "_Motor", "gsecret", "msecret"], ["vpkg/sx4/_engine/Gearbox", "vpkg/sx4/_engine/_Motor"]),
+        "single-underscore-names-ending-in-dunder": ({"sx5/__init__.py": "", "sx5/mod.py": "def _helper__() -> int:\n    return 1\n\n\nclass CPub5:\n    _attr__: int = 1\n\n    def _m__(self) -> int:\n        return 1\n\n    def __call__(self) -> int:\n        return 1\n\n\nclass _Cls__:\n    def pubm5(self) -> int:\n        return 1\n"},
+                                                     ["_helper__", "_attr__", "_m__", "_Cls__", "pubm5"], ["vpkg/sx5/mod/_helper__", "vpkg/sx5/mod/_Cls__", "vpkg/sx5/mod/CPub5/_m__"]),
+        "import-inside-a-function-of-init": ({"sx6/__init__.py": "def _lazy6():\n    from ._impl6 import Hidden6\n\n    return Hidden6\n", "sx6/_impl6.py": "class Hidden6:\n    def hm6(self) -> int:\n        return 1\n", "sx6/pub.py": "def p() -> int:\n    return 1\n"},
+                                             ["Hidden6", "hm6"], ["vpkg/sx6/_impl6/Hidden6"]),
+        "star-reexport-with-all": ({"sx7/__init__.py": "from ._star7 import *\n", "sx7/_star7.py": "__all__ = [\"Listed7\"]\n\n\nclass Listed7:\n    pass\n\n\nclass NotListed7:\n    def nl7(self) -> int:\n        return 1\n", "sx7/pub.py": "def p() -> int:\n    return 1\n"},
+                                   ["NotListed7", "nl7"], ["vpkg/sx7/_star7/NotListed7"]),
         "function-name-suffix": ({"sx3/__init__.py": "from ._m import run\n", "sx3/_m.py": "def run() -> int:\n    return 1\n\n\ndef dry_run() -> int:\n    return 1\n\n\ndef rerun() -> int:\n    return 1\n",
                                   "sx3/pub.py": "def p() -> int:\n    return 1\n"},
                                  ["dry_run", "rerun"], ["vpkg/sx3/_m/dry_run", "vpkg/sx3/_m/rerun"]),
